@@ -181,6 +181,33 @@ pub fn run(ctx: &mut Ctx) {
             }
         }
     }
+    // the collection is the whole data / the current element, spelled in every way
+    for whole in [
+        json!([{"var": "s"}]), json!([{"log": "LEAK"}]), json!([{"+": ["x"]}]), json!([0, {"log": "LEAK"}, 1]), json!([[{"log": "LEAK"}]]),
+        json!({"var": "s"}), json!({"log": "LEAK"}),
+    ] {
+        if !ctx.mine() {
+            continue;
+        }
+        for coll in [json!({"var": ""}), json!({"var": null}), json!({"var": []}), json!({"var": [""]}), json!({"var": [null]}), json!({"if": [true, {"var": ""}]}), json!({"merge": [{"var": ""}]})] {
+            for k in ["all", "some", "none", "map", "filter"] {
+                for e in [json!({"var": ""}), json!(true), json!(false), json!({"!": [{"var": ""}]})] {
+                    ctx.edge();
+                    ctx.check("whole-data-collection", &op(k, vec![coll.clone(), e]), &whole);
+                }
+            }
+            ctx.check("whole-data-collection", &op("reduce", vec![coll.clone(), json!({"var": "current"}), json!(0)]), &whole);
+            for k in ["merge", "cat", "!!", "log", "missing", "max"] {
+                ctx.check("whole-data-operand", &op(k, vec![coll.clone()]), &whole);
+            }
+            ctx.check("whole-data-operand", &op("in", vec![json!("x"), coll.clone()]), &whole);
+            // one level down: the current element of an outer map is the collection
+            for k in ["all", "some", "none", "filter", "map"] {
+                let inner = op(k, vec![coll.clone(), json!({"var": ""})]);
+                ctx.check("current-element-collection", &json!({"map": [{"var": "groups"}, inner]}), &json!({"groups": [[1], whole, []]}));
+            }
+        }
+    }
     // tracer rules
     for k in OPS {
         for n in 0..=4usize {
